@@ -295,44 +295,162 @@ def resolve_degeneracy(fn):
     return [{'name': nm, 'equal': eq[nm], 'required': req[nm], 'perm': perm} for nm, perm in perms]
 
 
-def permute(fn):
-    src = ast.unparse(fn)
-    want = ("elif self.elements.element_type == 'tet':\n"
-            "    return np.stack([elements[:, 0], elements[:, 2], elements[:, 1], elements[:, 3]], axis=-1)")
-    # extract the stack generally
-    for n in ast.walk(fn):
-        if isinstance(n, ast.If) and ast.unparse(n.test) == "self.elements.element_type == 'tet'":
-            if len(n.body) == 1 and isinstance(n.body[0], ast.Return):
-                v = n.body[0].value
-                if isinstance(v, ast.Call) and ast.unparse(v.func) == 'np.stack' and \
-                        isinstance(v.args[0], ast.List):
-                    cols = [_col(e, 'elements') for e in v.args[0].elts]
-                    if None in cols:
-                        raise TranslateError('_permute: unexpected column expression')
-                    return cols
-    raise TranslateError('_permute: tet branch not found')
+def _module_consts(tree):
+    """module-level NAME = <literal>"""
+    out = {}
+    for n in tree.body:
+        if isinstance(n, ast.Assign) and len(n.targets) == 1 and isinstance(n.targets[0], ast.Name):
+            try:
+                out[n.targets[0].id] = ast.literal_eval(n.value)
+            except (ValueError, SyntaxError):
+                pass
+    return out
 
 
-def make_positive(fn):
+def _columns(v, consts):
+    """the column order of `np.stack([elements[:, k] ...], axis=-1)` (list or comprehension
+    over a constant) or `elements[:, [k ...]]`"""
+    def const_seq(n):
+        if isinstance(n, ast.Name) and isinstance(consts.get(n.id), (tuple, list)):
+            return list(consts[n.id])
+        try:
+            x = ast.literal_eval(n)
+        except (ValueError, SyntaxError):
+            return None
+        return list(x) if isinstance(x, (tuple, list)) else None
+    if isinstance(v, ast.Call) and ast.unparse(v.func) == 'np.stack' and len(v.args) == 1 and \
+            [(k.arg, ast.unparse(k.value)) for k in v.keywords] in ([('axis', '-1')], [('axis', '1')]):
+        a = v.args[0]
+        if isinstance(a, ast.List):
+            cols = [_col(e, 'elements') for e in a.elts]
+            return None if None in cols else cols
+        if isinstance(a, ast.ListComp) and len(a.generators) == 1 and not a.generators[0].ifs and \
+                isinstance(a.generators[0].target, ast.Name):
+            i = a.generators[0].target.id
+            if ast.unparse(a.elt) == f'elements[:, {i}]':
+                return const_seq(a.generators[0].iter)
+        return None
+    if isinstance(v, ast.Subscript) and isinstance(v.value, ast.Name) and v.value.id == 'elements' and \
+            isinstance(v.slice, ast.Tuple) and len(v.slice.elts) == 2 and \
+            ast.unparse(v.slice.elts[0]) == ':':
+        return const_seq(v.slice.elts[1])
+    return None
+
+
+def permute(fn, consts=None):
+    """abstract run of _permute for element_type == 'tet' on a non-empty block: the value
+    returned (guard clauses, if / elif chains and a local alias of the element type read alike)"""
+    consts = consts or {}
+    alias = {'self.elements.element_type'}
+
+    def test(t):
+        if isinstance(t, ast.Compare) and len(t.ops) == 1:
+            l, op, r = ast.unparse(t.left), t.ops[0], t.comparators[0]
+            if l in alias and isinstance(r, ast.Constant) and isinstance(r.value, str) and \
+                    isinstance(op, (ast.Eq, ast.NotEq)):
+                return ('tet' == r.value) == isinstance(op, ast.Eq)
+            if l in alias and isinstance(op, (ast.In, ast.NotIn)):
+                try:
+                    return ('tet' in ast.literal_eval(r)) == isinstance(op, ast.In)
+                except (ValueError, SyntaxError):
+                    pass
+            if l == 'len(elements)' and isinstance(op, ast.Eq) and ast.unparse(r) == '0':
+                return False
+        raise TranslateError(f'_permute: test {ast.unparse(t)!r}')
+
+    def run(stmts):
+        for st in stmts:
+            if isinstance(st, ast.Expr) and isinstance(st.value, ast.Constant):
+                continue
+            if isinstance(st, ast.Assign) and len(st.targets) == 1 and isinstance(st.targets[0], ast.Name) \
+                    and ast.unparse(st.value) in alias and st.targets[0].id != 'elements':
+                alias.add(st.targets[0].id)
+                continue
+            if isinstance(st, ast.If):
+                r = run(st.body if test(st.test) else st.orelse)
+                if r is not None:
+                    return r
+                continue
+            if isinstance(st, ast.Return) and st.value is not None:
+                cols = _columns(st.value, consts)
+                if cols is None or not all(isinstance(c, int) and not isinstance(c, bool) for c in cols):
+                    raise TranslateError(f'_permute: tet rows become {ast.unparse(st.value)!r}')
+                return cols
+            raise TranslateError(f'_permute: statement {ast.unparse(st)[:80]!r} on the tet path')
+        return None
+    cols = run(fn.body)
+    if cols is None:
+        raise TranslateError('_permute: tet branch not found')
+    return cols
+
+
+class _Rename(ast.NodeTransformer):
+    def __init__(self, mapping):
+        self.mapping = mapping
+
+    def visit_Name(self, n):
+        return ast.copy_location(ast.Name(id=self.mapping.get(n.id, n.id), ctx=n.ctx), n)
+
+
+POSITIVE_CORE = [
+    {'metric = self.calculate_element_metrics(raise_negative_metric=False)[:, 0]'},
+    {'cond = metric < 0', 'cond = metric < 0.0'},
+    {'if np.sum(cond) == 0:\n    return', 'if cond.sum() == 0:\n    return',
+     'if not np.any(cond):\n    return', 'if not cond.any():\n    return'},
+    {'elements = self.elements.data'},
+    {'elements[cond] = self._permute(self.elements.data[cond])', 'elements[cond] = self._permute(elements[cond])'},
+    {'self.elements.data = elements'}]
+
+
+def positive_parts(fn, cls):
+    """(locals, tail): the six statements that decide WHAT is permuted, compared up to the
+    names of the three locals and the spelling of "no negative entry"; the statements
+    after the write-back with helper methods `self._h()` inlined one level"""
+    import copy
+    stmts = [s for s in fn.body
+             if not (isinstance(s, ast.Expr) and isinstance(s.value, ast.Constant))]
+    if len(stmts) < 6:
+        raise TranslateError('make_elements_positive: too short')
+
+    def tgt(s):
+        if isinstance(s, ast.Assign) and len(s.targets) == 1 and isinstance(s.targets[0], ast.Name):
+            return s.targets[0].id
+        raise TranslateError(f'make_elements_positive: {ast.unparse(s)[:60]!r} is not an assignment to a local')
+    loc = [tgt(stmts[0]), tgt(stmts[1]), tgt(stmts[3])]
+    if len(set(loc)) != 3:
+        raise TranslateError('make_elements_positive: locals')
+    mapping = dict(zip(loc, ['metric', 'cond', 'elements']))
+    for s, want in zip(stmts[:6], POSITIVE_CORE):
+        got = ast.unparse(_Rename(mapping).visit(copy.deepcopy(s)))
+        if got not in want:
+            raise TranslateError('make_elements_positive: the statements computing cond / permuting '
+                                 f'rows / writing back differ from the modelled ones: {got!r}')
+    tail = []
+    for st in stmts[6:]:
+        h = None
+        if isinstance(st, ast.Expr) and isinstance(st.value, ast.Call) and not st.value.args and \
+                not st.value.keywords and _self_attr(st.value.func):
+            hs = [n for n in cls.body if isinstance(n, ast.FunctionDef) and n.name == _self_attr(st.value.func)]
+            if len(hs) == 1 and [a.arg for a in hs[0].args.args] == ['self'] and not hs[0].decorator_list:
+                h = hs[0]
+        if h is None:
+            tail.append(st)
+        else:
+            tail += [b for b in h.body if not (isinstance(b, ast.Expr) and isinstance(b.value, ast.Constant))
+                     and not (isinstance(b, ast.Return) and b.value is None)]
+    return loc, tail
+
+
+def make_positive(fn, cls):
     """Strict on the statements that decide WHAT is permuted (metric, cond, the
     early return, the permutation of exactly the rows in cond, the write-back);
     after the write-back any bookkeeping is accepted as long as it cannot touch
-    the mesh: no use of elements / cond / metric, no access to self.elements or
+    the mesh: no use of the three locals, no access to self.elements or
     self.nodes, no raise, no return of a value."""
-    stmts = [s for s in fn.body
-             if not (isinstance(s, ast.Expr) and isinstance(s.value, ast.Constant))]
-    core = ['metric = self.calculate_element_metrics(raise_negative_metric=False)[:, 0]',
-            'cond = metric < 0',
-            'if np.sum(cond) == 0:\n    return',
-            'elements = self.elements.data',
-            'elements[cond] = self._permute(self.elements.data[cond])',
-            'self.elements.data = elements']
-    if [ast.unparse(s) for s in stmts[:6]] != core:
-        raise TranslateError('make_elements_positive: the statements computing cond / permuting '
-                             'rows / writing back differ from the modelled ones')
-    for st in stmts[6:]:
+    loc, tail = positive_parts(fn, cls)
+    for st in tail:
         for n in ast.walk(st):
-            bad = (isinstance(n, ast.Name) and n.id in ('elements', 'cond', 'metric')) or \
+            bad = (isinstance(n, ast.Name) and n.id in loc) or \
                   (isinstance(n, ast.Attribute) and n.attr in ('elements', 'nodes') and
                    isinstance(n.value, ast.Name) and n.value.id == 'self') or \
                   isinstance(n, ast.Raise) or (isinstance(n, ast.Return) and n.value is not None)
@@ -555,6 +673,7 @@ VALIDATE_BODY = ['if raise_negative_metric and np.any(metric < 0.0):\n'
 
 
 def slots(gcls, mp_fn):
+    _, mp_tail = positive_parts(mp_fn, gcls)
     sa = slot_answers(_method(gcls, '_slot_answers'))
     vm = _method(gcls, '_validate_metric')
     if [ast.unparse(s) for s in vm.body] != VALIDATE_BODY:
@@ -599,7 +718,7 @@ def slots(gcls, mp_fn):
         raise TranslateError('make_elements_positive: other arguments in the metric query')
     # what it removes after the write-back
     clears = None
-    for s in stmts[6:]:
+    for s in mp_tail:
         if isinstance(s, ast.For) and isinstance(s.iter, (ast.Tuple, ast.List)) and \
                 all(isinstance(e, ast.Constant) and isinstance(e.value, str) for e in s.iter.elts) and \
                 isinstance(s.target, ast.Name) and \
@@ -672,10 +791,10 @@ def translate(repo, degrade=True):
     pats = region('resolve_degeneracy', lambda: resolve_degeneracy(_method(cls, 'resolve_degeneracy')),
                   [('fem_data.py:resolve_degeneracy', fsrc, lambda: _method(cls, 'resolve_degeneracy'))])
     model['patterns'] = pats if pats is not None else base['patterns']
-    pm = region('_permute', lambda: permute(_method(gcls, '_permute')),
+    pm = region('_permute', lambda: permute(_method(gcls, '_permute'), _module_consts(gtree)),
                 [('geometry_processor.py:_permute', gsrc, lambda: _method(gcls, '_permute'))])
     model['permute_tet'] = pm if pm is not None else base['permute_tet']
-    region('make_elements_positive', lambda: make_positive(_method(gcls, 'make_elements_positive')),
+    region('make_elements_positive', lambda: make_positive(_method(gcls, 'make_elements_positive'), gcls),
            [('geometry_processor.py:make_elements_positive', gsrc,
              lambda: _method(gcls, 'make_elements_positive'))])
     sl = region('slots', lambda: slots(gcls, _method(gcls, 'make_elements_positive')),
